@@ -1,6 +1,7 @@
 """C34 — file inputs are staged according to their copy mode (pydra/engine/job.py Job.inputs,
 pydra/utils/typing.py copy_nested_files, pydra/utils/mount_identifier.py narrowing)."""
 import contextlib
+import os
 import shutil
 import tempfile
 import typing as ty
@@ -23,8 +24,9 @@ MANIFEST = dict(
          "link across mounts) and behaves accordingly — a copy keeps the original content whatever is later written to "
          "the original, a link shows it, 'leave' is the original; equal file-sets of a field get one destination and "
          "FileSet.copy is called once per distinct file-set of the field (memo lemma); nothing that existed is altered. "
-         "C34_total / C34_full — with the model of fileformats' algorithm, an empty job directory, existing files and "
-         "realisable modes, staging never fails (this needed the repair 74546108: one clash set shared by the fields). "
+         "C34_total / C34_full — with the model of fileformats' algorithm, existing files and realisable modes, "
+         "whatever the job directory already holds, staging never fails (this needed the repairs 74546108 and 53c1d5b2: "
+         "one clash set shared by the fields, seeded with the directory's entries). "
          "Tie: Job.inputs of generated tasks is run on real temp files for every FileSet.CopyMode value and collation, "
          "inodes/paths/contents are observed before, after, and after modifying the originals in place, and the model and "
          "the executable spec are evaluated on the same cases inside Coq.",
@@ -115,16 +117,17 @@ def make_task(fields):
 
 
 COQ_C34 = base.COQ_COMMON + r"""
-Inductive ores := ORes (outs : list (value * nat)) (c1 : snap) (c2 : obs) | OErr (e : oerr).
+Inductive ores := ORes (outs : list (value * nat)) (c1 : snap) (c2 : obs) (syms : list path) | OErr (e : oerr).
 Definition case_t := (table * string * snap * list field * ores)%type.
 Definition field_leaves (fields : list field) : list fileset := flat_map (fun fd => leaves (fd_value fd)) fields.
 Definition out_eqb (a b : value * nat) : bool := value_eqb (fst a) (fst b) && Nat.eqb (snd a) (snd b).
 Definition tie_ok (c : case_t) : bool :=
   let '(tab, dest, c0, fields, r) := c in
   match job_inputs ff_copy tab dest fields (fs_of c0), r with
-  | Ok (outs, fs1, _), ORes outs' c1 c2 =>
+  | Ok (outs, fs1, _), ORes outs' c1 c2 syms =>
       list_eqb out_eqb (map (fun o => (fst o, List.length (snd o))) outs) outs' && fs_matches dest fs1 c1
       && contents_match (write_all fs1 (field_leaves fields)) c2
+      && list_eqb path_eqb (sort_paths (sym_dsts (flat_map snd outs))) (sort_paths syms)
   | Err e, OErr o => err_matches e o
   | _, _ => false
   end.
@@ -137,7 +140,17 @@ Definition ready_b (tab : table) (dest : string) (c0 : snap) (fields : list fiel
 Definition spec_ok (c : case_t) : bool :=
   let '(tab, dest, c0, fields, r) := c in
   match r with
-  | ORes outs' c1 c2 => staged_b tab dest (strip c0) (strip c1) c2 fields outs'
+  | ORes outs' c1 c2 syms =>
+      staged_b tab dest (strip c0) (strip c1) c2 fields outs'
+      (* a symbolic link only where the field's mode allows one and the source is not on CIFS;
+         a hard link / copy / left file is not a symbolic link *)
+      && forallb (fun fo => let '(fd, o) := fo in
+           negb (is_staged fd) ||
+           forallb (fun sd => let '(s, d) := sd in
+              if mem (snd d) syms then allowed Sym (fd_mode fd) && mount_ok_b tab dest Sym s
+              else existsb (fun w => negb (way_eqb w Sym) && allowed w (fd_mode fd) && mount_ok_b tab dest w s
+                                     && behaves_b w dest (strip c0) c2 s d) ways)
+             (pairs_of (fd_value fd) (fst o))) (combine fields outs')
   | OErr _ => negb (ready_b tab dest c0 fields)
   end.
 """
@@ -153,6 +166,7 @@ def one_case(ctx, rng, basedir, spec=None):
     import pydra.engine.job as jobmod
 
     sb = base.Sandbox(basedir)
+    os.chdir("/tmp")
     try:
         modes = list(FileSet.CopyMode)
         colls = list(FileSet.CopyCollation)
@@ -185,6 +199,18 @@ def one_case(ctx, rng, basedir, spec=None):
         sb.dest = Path(job.cache_dir)
         sb.dest_canon = "/T/JOB"
         sb.dest.mkdir(parents=True)
+        # what a running job's directory holds when the inputs are staged (`_job.pklz` is written first),
+        # sometimes also entries named like an input or like a counter name
+        if spec is None:
+            pre = ["_job.pklz"] if rng.random() < 0.6 else []
+            if rng.random() < 0.15:
+                lv = [Path(str(x)).name for _, _, _, v in flds for x in base.leaves_of(v)]
+                pre = sorted(set(pre) | {rng.choice(lv + ["f (1).txt", "zz_unrelated"])})
+        else:
+            pre = spec.get("pre", [])
+        for n in pre:
+            (sb.dest / n).write_text("PRE")
+        meta["pre"] = pre
         values = attrs_values(task)
         fields = [(f.name, bool(TypeParser.contains_type(FileSet, f.type)), f.copy_mode, values[f.name])
                   for f in get_fields(task)]
@@ -239,6 +265,7 @@ def one_case(ctx, rng, basedir, spec=None):
                 n = 0
             outs.append((inputs[name], n))
         c1 = sb.snapshot()
+        syms = sb.symlinks()
         sb.modify_sources(sorted(src_set))
         c2 = sb.snapshot()
         staged_nonleave = any(str(x).startswith(str(sb.dest)) for _, _, _, v in [(0, 0, 0, inputs[f[0]]) for f in fields]
@@ -247,9 +274,10 @@ def one_case(ctx, rng, basedir, spec=None):
                     dest_listing=[x[0][1] for x in c1 if x[0][0] == sb.dest_canon],
                     nontrivial=bool(staged_nonleave and ((len(names) != len(set(names)) and len(src_set) > 1)
                                                          or len(leaves) != len(src_set))))
-        term = coqio.pair(*head, "(ORes %s %s %s)" % (
+        meta["symlinks"] = ["/".join(p) for p in syms]
+        term = coqio.pair(*head, "(ORes %s %s %s %s)" % (
             coqio.lst([coqio.pair(base.enc_value(sb, v), coqio.nat(max(n, 0)) if n >= 0 else "4999%nat") for v, n in outs]),
-            base.enc_snap(c1), base.enc_obs2(c2)))
+            base.enc_snap(c1), base.enc_obs2(c2), coqio.lst([base.enc_path(p) for p in syms])))
         return term, meta
     finally:
         sb.close()
@@ -258,7 +286,7 @@ def one_case(ctx, rng, basedir, spec=None):
 def run(ctx):
     rng = ctx.rng
     basedir = tempfile.mkdtemp(prefix="verif-c34-", dir="/tmp")
-    n = ctx.budget(320, 3600)
+    n = ctx.budget(200, 2000)
     cases, metas, skipped = [], [], 0
     try:
         for spec in ctx.corpus():
@@ -289,7 +317,7 @@ def run(ctx):
         dist["fields_not_staged_by_type"] += sum(1 for f in m["fields"] if f["any"])
         for f in m["fields"]:
             dist["mode_" + f["mode"]] = dist.get("mode_" + f["mode"], 0) + 1
-        key = repr((m["fields"], m["table"]))
+        key = repr((m["fields"], m["table"], m.get("pre")))
         if key not in seen:
             seen.add(key)
             nontrivial += bool(m.get("nontrivial"))
@@ -300,7 +328,7 @@ def run(ctx):
     for i in sorted(spec_bad)[:30]:
         m = metas[i]
         out.failures.append(Failure(
-            case={"fields": m["fields"], "table": m["table"]},
+            case={"fields": m["fields"], "table": m["table"], "pre": m.get("pre", [])},
             observed={k: m.get(k) for k in ("result", "outputs", "error_text", "dest_listing")},
             expected="staged: shape kept; every file of a staged field realised in a way its copy mode and the mounts "
                      "permit (copy independent of the original, link shows it); one FileSet.copy per distinct file-set "
@@ -311,7 +339,7 @@ def run(ctx):
         if i in spec_bad:
             continue
         m = metas[i]
-        out.failures.append(Failure(case={"fields": m["fields"], "table": m["table"]},
+        out.failures.append(Failure(case={"fields": m["fields"], "table": m["table"], "pre": m.get("pre", [])},
                                     observed={k: m.get(k) for k in ("result", "outputs", "error_text", "dest_listing")},
                                     expected="model: see --replay", kind="tie", note="model/impl"))
     return out
